@@ -59,8 +59,15 @@ def _cons_attrs(desc):
     return attrs
 
 
-def build(desc):
-    """instantiate a type descriptor through utype's public API"""
+def build(desc, ctx=None):
+    """instantiate a type descriptor through utype's public API.  `ctx` keeps the identity of named rule classes
+    (by name) and data classes (by uid) so that the same class object is used wherever a descriptor repeats them"""
+    if ctx is None:
+        ctx = {"rules": {}, "classes": {}}
+    return _build(desc, ctx)
+
+
+def _build(desc, ctx):
     import enum
     import typing as t
     from utype import Field, Options, Rule, Schema
@@ -74,20 +81,29 @@ def build(desc):
     if k == "plain":
         return P[desc["p"]]
     if k == "scalar":
+        name = desc.get("name")
+        if name and name in ctx["rules"]:
+            return ctx["rules"][name]
         attrs = _cons_attrs(desc)
         for a in ("primitive", "format"):
             if desc.get(a) is not None:
                 attrs[a] = desc[a]
-        return type(_uniq("R"), (P[desc["p"]], Rule), attrs)
+        cls = type(name or _uniq("R"), (P[desc["p"]], Rule), attrs)
+        if name:
+            ctx["rules"][name] = cls
+        return cls
+    if k == "derived":
+        # a named rule narrowed at one use site, as `x: Named = Field(le=…)` does
+        return Rule.parse_annotation(annotation=_build(desc["base"], ctx), constraints=_cons_attrs(desc))
     if k == "seq":
-        it = build(desc["item"])
+        it = _build(desc["item"], ctx)
         ann = {"list": t.List[it], "set": t.Set[it], "tuple": t.Tuple[it, ...]}[desc["p"]]
         return Rule.parse_annotation(annotation=ann, constraints=_cons_attrs(desc) or None)
     if k == "tup":
-        ann = t.Tuple[tuple(build(x) for x in desc["items"])]
+        ann = t.Tuple[tuple(_build(x, ctx) for x in desc["items"])]
         return Rule.parse_annotation(annotation=ann, constraints=_cons_attrs(desc) or None)
     if k == "map":
-        ann = t.Dict[build(desc["key"]), build(desc["val"])]
+        ann = t.Dict[_build(desc["key"], ctx), _build(desc["val"], ctx)]
         return Rule.parse_annotation(annotation=ann, constraints=_cons_attrs(desc) or None)
     if k == "enum":
         base = P[desc["base"]] if desc.get("base") else None
@@ -95,8 +111,10 @@ def build(desc):
         return enum.Enum(desc["name"], members, type=base) if base else enum.Enum(desc["name"], members)
     if k == "logic":
         sym = {"allOf": "&", "anyOf": "|", "oneOf": "^"}[desc["op"]]
-        return LogicalType.combine(sym, *[build(x) for x in desc["ts"]])
+        return LogicalType.combine(sym, *[_build(x, ctx) for x in desc["ts"]])
     if k == "data":
+        if desc.get("uid") is not None and desc["uid"] in ctx["classes"]:
+            return ctx["classes"][desc["uid"]]
         o = desc["opts"]
         kw = {}
         if o.get("mode"):
@@ -107,7 +125,7 @@ def build(desc):
         elif add == "keep":
             kw["addition"] = True
         elif add == "convert":
-            kw["addition"] = build(desc["addTy"])
+            kw["addition"] = _build(desc["addTy"], ctx)
         for a in ("ignore_required", "no_default", "defer_default"):
             if o.get(a):
                 kw[a] = True
@@ -115,7 +133,7 @@ def build(desc):
         if kw:
             ns["__options__"] = Options(**kw)
         for f in desc["fields"]:
-            ft = build(f["ty"])
+            ft = _build(f["ty"], ctx)
             if f.get("prop"):
                 def getter(self, _v=f["prop_value"], _t=ft):
                     from utype import type_transform
@@ -151,7 +169,10 @@ def build(desc):
                     fk["default"] = dv
             ns["__annotations__"][f["attname"]] = Final[ft] if f.get("final") else ft
             ns[f["attname"]] = Field(**fk)
-        return type(desc["name"], (Schema,), ns)
+        cls = type(desc["name"], (Schema,), ns)
+        if desc.get("uid") is not None:
+            ctx["classes"][desc["uid"]] = cls
+        return cls
     raise ValueError(f"unknown descriptor kind {k}")
 
 
@@ -361,49 +382,46 @@ def _probe(T, desc, options):
     return {"fields": rows, "unknown": unknown, "base": e[0] if e else "ok"}
 
 
-def impl(case):
-    import warnings
-    warnings.simplefilter("ignore")
-    if case.get("kind") == "pairs":
-        return {"pairs": True}
+def _gen_doc(T, gm, output, defs=None, names=None):
+    """one generator call; with a registry the assembled document is `returned + {"$defs": get_defs()}`"""
     from utype import JsonSchemaGenerator
+    try:
+        if defs is None:
+            doc = JsonSchemaGenerator(T, mode=gm, output=output)()
+        else:
+            gen = JsonSchemaGenerator(T, defs=defs, names=names, mode=gm, output=output)
+            top = gen()
+            doc = dict(top)
+            doc["$defs"] = gen.get_defs()
+    except BaseException as e:
+        return {"exc": type(e).__name__}
+    try:
+        json.dumps(doc)
+        ok = True
+    except Exception:
+        ok = False
+    return {"doc": _jsonable(doc), "json_ok": ok}
+
+
+def _impl_one(case, ctx, regs):
+    """one declaration: both views inline, (optionally) both views through a registry, parsed inputs, probes.
+    `regs` = {"in": (defs, names), "out": (defs, names)} shared by the steps of a session, or None"""
     from utype.utils.encode import JSONEncoder
     from utype import exc as _exc
     try:
-        T = build(case["ty"])
+        T = build(case["ty"], ctx)
     except (_exc.ParseError, _exc.ConfigError) as e:
         # the library refuses the declaration (e.g. a default the declared type does not accept): not a C13 case
-        return {"declaration_rejected": type(e).__name__}
+        return {"declaration_rejected": type(e).__name__}, None
     except Exception as e:
-        return {"build_error": f"{type(e).__name__}: {e}"[:200]}
+        return {"build_error": f"{type(e).__name__}: {e}"[:200]}, None
     gm = case.get("genMode")
     res = {}
     for view in ("in", "out"):
-        try:
-            doc = JsonSchemaGenerator(T, mode=gm, output=(view == "out"))()
-        except BaseException as e:
-            res["schema_" + view] = {"exc": type(e).__name__}
-            continue
-        try:
-            json.dumps(doc)
-            ok = True
-        except Exception:
-            ok = False
-        res["schema_" + view] = {"doc": _jsonable(doc), "json_ok": ok}
+        res["schema_" + view] = _gen_doc(T, gm, view == "out")
         if case.get("defs"):
-            try:
-                gen = JsonSchemaGenerator(T, defs={}, mode=gm, output=(view == "out"))
-                top = gen()
-                full = dict(top)
-                full["$defs"] = gen.get_defs()
-                try:
-                    json.dumps(full)
-                    ok = True
-                except Exception:
-                    ok = False
-                res["defs_" + view] = {"doc": _jsonable(full), "json_ok": ok}
-            except BaseException as e:
-                res["defs_" + view] = {"exc": type(e).__name__}
+            d, n = regs[view] if regs else ({}, {})
+            res["defs_" + view] = _gen_doc(T, gm, view == "out", d, n)
     options = _runtime_options(T, gm)
     outs = []
     for x in case.get("inputs", []):
@@ -428,6 +446,37 @@ def impl(case):
                 res["probe_classmode"] = _probe(T, case["ty"], None)
         except BaseException as e:
             res["probe"] = {"exc": f"{type(e).__name__}: {e}"[:200]}
+    return res, T
+
+
+def impl(case):
+    import warnings
+    warnings.simplefilter("ignore")
+    if case.get("kind") == "pairs":
+        return {"pairs": True}
+    ctx = {"rules": {}, "classes": {}}
+    if case.get("kind") == "session":
+        # several documents through ONE registry per view, in sequence
+        from utype import JsonSchemaGenerator
+        regs = {"in": ({}, {}), "out": ({}, {})}
+        steps, tops = [], []
+        for st in case["steps"]:
+            res, T = _impl_one(st, ctx, regs)
+            steps.append(res)
+        # every returned document again, against the registry as it is after the last step
+        for view in ("in", "out"):
+            d, n = regs[view]
+            try:
+                final = _jsonable(JsonSchemaGenerator(None, defs=d, names=n).get_defs())
+            except BaseException as e:
+                final = {"__nonjson__": type(e).__name__}
+            for res in steps:
+                dd = res.get("defs_" + view) if isinstance(res, dict) else None
+                if dd and "doc" in dd:
+                    top = {k: v for k, v in dd["doc"].items() if k != "$defs"}
+                    res["final_" + view] = {"doc": dict(top, **{"$defs": final}), "json_ok": dd["json_ok"]}
+        return {"steps": steps}
+    res, _ = _impl_one(case, ctx, None)
     return res
 
 
@@ -719,6 +768,8 @@ def gen_hashable(rng):
 def _json_kind(t):
     """coarse JSON kind of published values (to build disjoint oneOf arguments)"""
     k = t["k"]
+    if k == "derived":
+        return _json_kind(t["base"])
     if k == "plain" or k == "scalar":
         return {"int": "num", "float": "num", "decimal": "num", "bool": "bool", "null": "null", "list": "arr",
                 "tuple": "arr", "set": "arr", "dict": "obj"}.get(t["p"], "str")
@@ -787,8 +838,68 @@ def gen_logic(rng, depth):
 ATT = ["a", "b", "c", "d", "e", "f", "g", "h"]
 
 
-def gen_field(rng, attname, depth, cls_mode):
-    f = {"attname": attname, "ty": gen_ty(rng, depth, "field")}
+def gen_named(rng, k):
+    """a named rule class that several sites share"""
+    d = gen_scalar(rng, rng.choice(["int", "int", "float", "str"]))
+    d["cons"] = {c: v for c, v in d["cons"].items() if c not in ("const", "enum")} or \
+        ({"max_length": 5} if d["p"] == "str" else {"ge": 0 if d["p"] == "int" else 0.0})
+    d.pop("lax", None)
+    d["name"] = "N" + str(k)
+    return d
+
+
+def narrow(rng, base):
+    """the named rule narrowed by a field-level constraint (a new rule whose origin is the named one); None if no
+    constraint can be added that keeps two values and excludes one the plain rule accepts"""
+    vals = _samples(base, rng, 30)
+    distinct = []
+    for v in vals:
+        if v not in distinct:
+            distinct.append(v)
+    if len(distinct) < 3:
+        return None
+    cons = {}
+    if base["p"] in ("int", "float"):
+        srt = sorted(distinct)
+        if not any(c in base["cons"] for c in ("le", "lt")) and rng.random() < 0.7:
+            cons["le"] = srt[1]                     # keeps the two smallest, excludes the rest
+        elif not any(c in base["cons"] for c in ("ge", "gt")):
+            cons["ge"] = srt[-2]
+        elif "multiple_of" not in base["cons"] and base["p"] == "int":
+            cons["multiple_of"] = 2
+    else:
+        if "regex" not in base["cons"] and rng.random() < 0.6:
+            cons["regex"] = rng.choice(["[a-z]+", "\\d+", "[a-c]*"])
+        elif "min_length" not in base["cons"] and "length" not in base["cons"]:
+            cons["min_length"] = 2
+    if not cons:
+        return None
+    d = {"k": "derived", "base": copy.deepcopy(base), "cons": cons}
+    kept = _samples(d, rng, 30)
+    if len({json.dumps(v) for v in kept}) < 2 or len({json.dumps(v) for v in kept}) == len(distinct):
+        return None
+    return d
+
+
+def use_named(rng, pool):
+    """one of the ways a field can use a shared named rule"""
+    base = copy.deepcopy(rng.choice(pool))
+    r = rng.random()
+    if r < 0.3:
+        return base
+    if r < 0.6:
+        return narrow(rng, base) or base
+    if r < 0.75:
+        return {"k": "seq", "p": rng.choice(["list", "tuple"]), "cons": {}, "item": base}
+    if r < 0.85:
+        return {"k": "logic", "op": "anyOf", "ts": [base, {"k": "plain", "p": "null"}]}
+    if r < 0.93:
+        return {"k": "map", "cons": {}, "key": {"k": "plain", "p": "str"}, "val": base}
+    return {"k": "tup", "cons": {}, "items": [base, narrow(rng, base) or {"k": "plain", "p": "bool"}]}
+
+
+def gen_field(rng, attname, depth, cls_mode, pool=None):
+    f = {"attname": attname, "ty": use_named(rng, pool) if pool and rng.random() < 0.6 else gen_ty(rng, depth, "field")}
     r = rng.random()
     if r < 0.25:
         f["alias"] = attname + "_x"
@@ -841,14 +952,24 @@ def gen_field(rng, attname, depth, cls_mode):
     return f
 
 
-def gen_data(rng, depth=1, nested=False, cls_mode="rand"):
+_UID = [0]
+
+
+def _next_uid():
+    _UID[0] += 1
+    return _UID[0]
+
+
+def gen_data(rng, depth=1, nested=False, cls_mode="rand", pool=None, name=None):
     n = rng.randint(1, 3 if nested else 5)
-    name = "K" + str(rng.randrange(10 ** 7))
+    name = name or "K" + str(rng.randrange(10 ** 7))
+    if pool is None and not nested and rng.random() < 0.3:
+        pool = [gen_named(rng, i + 1) for i in range(rng.randint(1, 2))]
     mode = rng.choice([None, None, "r", "w", "a"]) if cls_mode == "rand" else cls_mode
     opts = {"mode": mode, "addition": rng.choice(["drop", "drop", "reject", "keep", "convert"]),
             "ignore_required": rng.random() < 0.1, "no_default": rng.random() < 0.1,
             "defer_default": rng.random() < 0.08}
-    fields = [gen_field(rng, ATT[i], depth, mode) for i in range(n)]
+    fields = [gen_field(rng, ATT[i], depth, mode, pool) for i in range(n)]
     # a getter-only property
     if not nested and rng.random() < 0.2:
         pt = rng.choice([{"k": "plain", "p": "int"}, {"k": "plain", "p": "str"}])
@@ -861,7 +982,7 @@ def gen_data(rng, depth=1, nested=False, cls_mode="rand"):
                 and not b.get("mode") and not b.get("readonly") and not b.get("writeonly"):
             a["deps"] = [b.get("alias") or b["attname"]]
             a["required"] = False
-    d = {"k": "data", "name": name, "opts": opts, "fields": fields, "addTy": None}
+    d = {"k": "data", "name": name, "uid": _next_uid(), "opts": opts, "fields": fields, "addTy": None}
     if opts["addition"] == "convert":
         d["addTy"] = rng.choice([{"k": "plain", "p": "int"}, {"k": "scalar", "p": "int", "cons": {"ge": 0}},
                                  {"k": "plain", "p": "float"}])
@@ -915,6 +1036,9 @@ def _samples(t, rng, n=2):
         while len(out) < n:
             out.append(out[-1])
         return out
+    if k == "derived":
+        merged = {"k": "scalar", "p": t["base"]["p"], "cons": {**t["base"]["cons"], **t["cons"]}}
+        return _samples(merged, rng, n)
     if k == "enum":
         vals = [m[1] for m in t["members"]]
         return [vals[i % len(vals)] for i in range(n)]
@@ -1056,6 +1180,118 @@ def variants(v, rng):
     return out
 
 
+def assign_ids(descs):
+    """every rule class gets the name it is created with and an identity; every narrowed site and data class an
+    identity (descriptors that repeat a name / uid denote the same class object)"""
+    names, counter, classes = {}, [1000], {}
+
+    def walk(t):
+        if isinstance(t, list):
+            for x in t:
+                walk(x)
+            return
+        if not isinstance(t, dict):
+            return
+        k = t.get("k")
+        if k == "scalar":
+            if not t.get("name"):
+                counter[0] += 1
+                t["name"] = "R" + str(counter[0])
+            t["uid"] = names.setdefault(t["name"], 5000 + len(names))
+        elif k == "derived":
+            walk(t["base"])
+            counter[0] += 1
+            t["uid"] = 20000 + counter[0]
+        elif k == "data":
+            # renumber per case (the generator's running counter only says which descriptors are the same class)
+            old = t.get("uid")
+            if isinstance(old, int) and old >= 40000:
+                pass
+            elif old is not None and ("c", old) in classes:
+                t["uid"] = classes[("c", old)]
+            else:
+                counter[0] += 1
+                t["uid"] = 40000 + counter[0]
+                if old is not None:
+                    classes[("c", old)] = t["uid"]
+        for key in ("item", "items", "key", "val", "ts", "addTy"):
+            if key in t:
+                walk(t[key])
+        for f in t.get("fields", []) if k == "data" else []:
+            walk(f["ty"])
+
+    walk(descs)
+
+
+def gen_session(rng):
+    """several documents through one registry: option variants of one class (same generated name), different
+    classes with one name, a nested class shared by two documents, named rules shared by all of them"""
+    for _ in range(20):
+        pool = [gen_named(rng, i + 1) for i in range(rng.randint(1, 2))]
+        first = gen_data(rng, depth=rng.choice([0, 1]), pool=pool, name="Doc" + str(rng.randrange(100)))
+        first["opts"]["mode"] = rng.choice([None, "w", "r"])
+        steps = [first]
+        for _ in range(rng.randint(1, 3)):
+            r = rng.random()
+            if r < 0.45:
+                # the same declaration under other options: a different class with the same generated name
+                v = copy.deepcopy(first)
+                v["uid"] = _next_uid()
+                v["opts"].update(rng.choice([{"ignore_required": True}, {"addition": "reject"}, {"no_default": True},
+                                             {"addition": "keep"}]))
+                for f in v["fields"]:
+                    _fresh_sites(f["ty"])
+                steps.append(v)
+            elif r < 0.75:
+                # an unrelated class that happens to have the same name (and mode)
+                v = gen_data(rng, depth=0, pool=pool, name=first["name"])
+                v["opts"]["mode"] = first["opts"]["mode"]
+                steps.append(v)
+            else:
+                # a class that embeds the first one (same class object: the registry already knows it)
+                v = gen_data(rng, depth=0, pool=pool)
+                v["fields"].append({"attname": "h", "ty": copy.deepcopy(first), "required": False})
+                if rng.random() < 0.5:
+                    v["fields"].append({"attname": "hs", "ty": {"k": "seq", "p": "list", "cons": {}, "item": copy.deepcopy(first)},
+                                        "required": False})
+                steps.append(v)
+        rng.shuffle(steps)
+        cases = []
+        ok = True
+        for t in steps:
+            if not attach_samples(t, rng):
+                ok = False
+                break
+            base = samples(t, rng, 3)
+            if not base:
+                ok = False
+                break
+            ins = []
+            for b in base:
+                ins.append(b)
+                vs = variants(b, rng)
+                rng.shuffle(vs)
+                ins += vs[:2]
+            cases.append({"ty": t, "genMode": None, "inputs": ins[:8], "defs": True})
+        if not ok:
+            continue
+        assign_ids([c["ty"] for c in cases])
+        return {"kind": "session", "steps": cases}
+    return gen_case(rng)
+
+
+def _fresh_sites(t):
+    """a copied declaration: nested data classes stay the same objects, narrowed sites are re-created"""
+    if isinstance(t, dict):
+        if t.get("k") == "derived":
+            t.pop("uid", None)
+        for v in t.values():
+            _fresh_sites(v)
+    elif isinstance(t, list):
+        for v in t:
+            _fresh_sites(v)
+
+
 def gen_case(rng, top=None):
     top = top or rng.choice(["data", "data", "data", "type"])
     for _ in range(20):
@@ -1080,6 +1316,7 @@ def gen_case(rng, top=None):
                 case["genMode"] = rng.choice(["r", "w", "a"])
         if rng.random() < 0.3:
             case["defs"] = True
+        assign_ids(case["ty"])
         return case
     return {"ty": {"k": "plain", "p": "int"}, "genMode": None, "inputs": [1, "2", "x"]}
 
@@ -1297,6 +1534,17 @@ def _has_weak_oneof(t):
     return False
 
 
+def _resolve_top(doc):
+    """the schema a document says its instances have: follow a top-level `$ref` into `$defs`"""
+    seen = 0
+    cur = doc
+    while isinstance(cur, dict) and isinstance(cur.get("$ref"), str) and seen < 8:
+        name = cur["$ref"].rsplit("/", 1)[-1]
+        cur = (doc.get("$defs") or {}).get(name)
+        seen += 1
+    return cur
+
+
 def _class_mode(case):
     return case["ty"]["opts"].get("mode") if case["ty"]["k"] == "data" else None
 
@@ -1308,14 +1556,18 @@ class C13(Check):
     impl = "harness.c13:impl"
     uses_extract = True
     case_timeout = 20.0
-    budget = {"quick": 5000, "thorough": 40000}
+    budget = {"quick": 3000, "thorough": 30000}
     search_budget = {"quick": 1500, "thorough": 8000}
     rule = ("random declarations: data classes (1-5 fields over the Field parameter product: alias, alias_from, required "
             "bool/mode-string, default/default_factory, defer_default, no_input/no_output bool/mode-string, mode/readonly/"
             "writeonly, Final, dependencies, annotations, getter-only property; class Options mode/addition(None,False,True,"
             "type)/ignore_required/no_default/defer_default), constrained scalars, containers, tuples, mappings, enums, "
             "unions/oneOf/allOf, nested data classes (depth<=2) x generator mode {none,r,w,a} x {input,output} view "
-            "(+ the $defs mode for 30%), each with <=10 raw inputs (valid, re-spelled, damaged); plus arbitrary "
+            "(+ the $defs mode for 30%), each with <=10 raw inputs (valid, re-spelled, damaged); classes whose fields share "
+            "NAMED rule classes (plain, narrowed by a field-level constraint, inside List/Tuple/Dict/Optional); SESSIONS of "
+            "2-4 documents generated in sequence through one defs=/names= registry per view (option variants of one class "
+            "= same generated name, unrelated classes with one name, a class embedded in a later one), every document "
+            "checked when returned and again against the final registry; plus arbitrary "
             "schema/instance pairs over the whole vocabulary for the Lean-validator vs jsonschema cross-check. "
             "non-trivial = the declaration is not a bare builtin class / Any (i.e. it is a data class, constrained type, "
             "container, enum or combinator) AND at least one input was parsed and published (or it is a pairs case); "
@@ -1336,8 +1588,11 @@ class C13(Check):
             # every mode x view on a fixed field grid (small exhaustive part)
             out += self.grid_cases(rng, full=(tier == "thorough"))
         for i in range(n):
-            if rng.random() < 0.12:
+            r = rng.random()
+            if r < 0.12:
                 out.append(gen_pairs_case(rng))
+            elif r < 0.24:
+                out.append(gen_session(rng))
             else:
                 out.append(gen_case(rng))
         return out
@@ -1384,12 +1639,19 @@ class C13(Check):
             for p in case["pairs"]:
                 jobs.append(("pair", {"schema": p["schema"], "instances": p["instances"]}))
             return jobs
+        if case.get("kind") == "session":
+            for i, (st, sio) in enumerate(zip(case["steps"], io.get("steps", []))):
+                if isinstance(sio, dict):
+                    sio["js"] = {}
+                    jobs += [((i, key), job) for key, job in self.js_jobs(st, sio)]
+            return jobs
         if "outs" not in io:
             return jobs
         encs = [o["enc"] for o in io["outs"] if "enc" in o]
         patched = [_patch_unsafe(o["enc"], o["pv"]) for o in io["outs"] if "enc" in o]
         raw = [x for x in case.get("inputs", [])]
-        for key, insts in (("schema_in", raw), ("schema_out", encs + patched), ("defs_in", raw), ("defs_out", encs + patched)):
+        for key, insts in (("schema_in", raw), ("schema_out", encs + patched), ("defs_in", raw), ("defs_out", encs + patched),
+                           ("final_in", raw), ("final_out", encs + patched)):
             s = io.get(key)
             if s and "doc" in s and not _has_nonjson(s["doc"]):
                 jobs.append((key, {"schema": s["doc"], "instances": insts}))
@@ -1411,6 +1673,8 @@ class C13(Check):
         for (ci, key), v in zip(where, verdicts):
             if key == "pair":
                 impl_outs[ci]["js"].setdefault("pairs", []).append(v)
+            elif isinstance(key, tuple):
+                impl_outs[ci]["steps"][key[0]]["js"][key[1]] = v
             else:
                 impl_outs[ci]["js"][key] = v
         lines = [self.model_line(c, io) for c, io in zip(cases, impl_outs)]
@@ -1423,7 +1687,17 @@ class C13(Check):
             insts = [i for p in case["pairs"] for i in p["instances"]]
             return {"op": "pairs", "pairs": case["pairs"], "rx": rx_table(docs, insts)}
         io = io if isinstance(io, dict) else {}
-        line = {"op": "case", "ty": case["ty"], "genMode": case.get("genMode")}
+        if case.get("kind") == "session":
+            sios = io.get("steps") or [{}] * len(case["steps"])
+            return {"op": "session", "steps": [self.model_line(st, sio) for st, sio in zip(case["steps"], sios)]}
+        line = {"op": "case", "ty": case["ty"], "genMode": case.get("genMode"), "defs": bool(case.get("defs"))}
+        extra_docs = []
+        for key in ("defs_in", "defs_out", "final_in", "final_out"):
+            d = (io.get(key) or {}).get("doc")
+            ok = d is not None and not _has_nonjson(d)
+            line[key.replace("_", "_real_", 1)] = d if ok else None
+            if ok:
+                extra_docs.append(d)
         real_in = (io.get("schema_in") or {}).get("doc")
         real_out = (io.get("schema_out") or {}).get("doc")
         line["real_in"] = real_in if real_in is not None and not _has_nonjson(real_in) else None
@@ -1436,7 +1710,7 @@ class C13(Check):
         line["ins"] = list(case.get("inputs", []))
         pats = set(p for _, p in [("", ".*"), ("", "[-]?\\d+"), ("", "[-]?\\d+(\\.\\d+)?"), ("", "\\d{4}-\\d{2}-\\d{2}")])
         _patterns(case["ty"], pats)
-        line["rx"] = rx_table([real_in, real_out], [o["enc"] for o in outs] + [o["pv"] for o in outs] + line["ins"], pats)
+        line["rx"] = rx_table([real_in, real_out] + extra_docs, [o["enc"] for o in outs] + [o["pv"] for o in outs] + line["ins"], pats)
         return line
 
     # ---- compare: model vs implementation -----------------------------------------------------
@@ -1457,6 +1731,14 @@ class C13(Check):
                         if isinstance(b, bool) and a != b:
                             return f"validator: Lean={a} jsonschema={b} schema={json.dumps(p['schema'])[:300]} instance={json.dumps(inst)}"
             return None
+        if case.get("kind") == "session":
+            if any(isinstance(x, dict) and "declaration_rejected" in x for x in io.get("steps", [])):
+                return None     # the registries of model and library are no longer in step
+            for i, (st, sio, smo) in enumerate(zip(case["steps"], io.get("steps", []), mo.get("steps", []))):
+                d = self.compare(st, sio, smo)
+                if d:
+                    return f"step {i}: {d}"
+            return None
         if "declaration_rejected" in io:
             return None
         if "build_error" in io:
@@ -1464,6 +1746,32 @@ class C13(Check):
         if "unmodelled" in mo:
             return None
         js = io.get("js", {})
+        # `$defs` mode: the assembled document of the real generator is the model's, member by member
+        for view in ("in", "out"):
+            real = io.get("defs_" + view)
+            if real is None:
+                continue
+            if "doc" not in real:
+                return f"generator with a registry raised {real.get('exc')} ({view} view); the model generates a document"
+            if not _has_nonjson(real["doc"]) and mo.get("defs_" + view) is not None and not _eqj(real["doc"], mo["defs_" + view]):
+                return (f"$defs document differs ({view} view): impl={json.dumps(real['doc'], sort_keys=True)[:500]} "
+                        f"model={json.dumps(mo['defs_' + view], sort_keys=True)[:500]}")
+            for key, field in (("defs_" + view, "valid_defs"), ("final_" + view, "valid_final")):
+                lib = js.get(key)
+                if not lib or not lib["check"]:
+                    continue
+                if view == "out":
+                    outs0 = [o for o in io.get("outs", []) if "enc" in o]
+                    rows = [(o, m, lib["valid"][k]) for k, (o, m) in enumerate(zip(
+                        [o for o in outs0 if not (o.get("flags") or {}).get("nonfinite") and not (o.get("flags") or {}).get("foreign")],
+                        mo.get("outs", [])))] if len(outs0) == len(mo.get("outs", [])) else []
+                    for o, m, b in rows:
+                        if isinstance(b, bool) and m.get(field) is not None and m[field] != b and not (o.get("flags") or {}).get("inexact"):
+                            return f"validator ({key} document): Lean={m[field]} jsonschema={b} on {json.dumps(o['enc'])[:200]}"
+                else:
+                    for x, m, b in zip(case.get("inputs", []), mo.get("ins", []), lib["valid"]):
+                        if isinstance(b, bool) and m.get(field) is not None and m[field] != b and not _inexact(x):
+                            return f"validator ({key} document): Lean={m[field]} jsonschema={b} on {json.dumps(x)[:200]}"
         for view in ("in", "out"):
             real = io.get("schema_" + view, {})
             if "doc" not in real:
@@ -1528,6 +1836,14 @@ class C13(Check):
 
     # ---- spec: the property's predicate on what the implementation returned -------------------------
     def spec(self, case, io, mo):
+        if case.get("kind") == "session":
+            if not isinstance(io, dict) or "steps" not in io:
+                return None
+            for i, (st, sio) in enumerate(zip(case["steps"], io["steps"])):
+                w = self._spec(st, sio, sio.get("probe") if isinstance(sio, dict) else None)
+                if w:
+                    return f"step {i}: {w}"
+            return None
         return self._spec(case, io, io.get("probe") if isinstance(io, dict) else None)
 
     def _spec(self, case, io, probe, structure_only=False):
@@ -1538,7 +1854,8 @@ class C13(Check):
         if io.get("hang") or io.get("crash"):
             return "generator / parser did not return (hang or crash)"
         js = io.get("js", {})
-        views = [("schema_in", "in"), ("schema_out", "out")] + ([("defs_in", "in"), ("defs_out", "out")] if case.get("defs") else [])
+        views = [("schema_in", "in"), ("schema_out", "out")] + ([("defs_in", "in"), ("defs_out", "out")] if case.get("defs") else []) \
+            + [(k, k[-2:].strip("_")) for k in ("final_in", "final_out") if k in io]
         if not structure_only:
             # 1. a valid JSON Schema document
             for key, view in views:
@@ -1552,7 +1869,7 @@ class C13(Check):
                     return f"valid-schema: {key} fails the 2020-12 metaschema: {lib and lib.get('why')}"
             # 2. every published value validates against the output schema
             outs = [o for o in io.get("outs", []) if "enc" in o]
-            for key in ("schema_out", "defs_out"):
+            for key in ("schema_out", "defs_out", "final_out"):
                 lib = js.get(key)
                 if lib is None:
                     continue
@@ -1569,9 +1886,18 @@ class C13(Check):
             if probe and "exc" in probe:
                 return "probe failed: " + probe["exc"]
             return None
-        doc = io.get("schema_in", {}).get("doc")
+        for key in ("schema_in", "defs_in", "final_in"):
+            doc = (io.get(key) or {}).get("doc")
+            if not isinstance(doc, dict):
+                continue
+            w = self._structure(_resolve_top(doc), probe)
+            if w:
+                return w if key == "schema_in" else w.replace(": ", f" ({key} document): ", 1)
+        return None
+
+    def _structure(self, doc, probe):
         if not isinstance(doc, dict):
-            return None
+            return "properties: the returned reference does not resolve in $defs"
         props = doc.get("properties", {})
         listed = set(props)
         for p in props.values():
@@ -1601,6 +1927,12 @@ class C13(Check):
         return None
 
     def classify(self, case, io, why):
+        if case.get("kind") == "session":
+            m = re.match(r"step (\d+): (.*)", why, re.S)
+            if not m:
+                return None
+            i = int(m.group(1))
+            return self.classify(case["steps"][i], io["steps"][i], m.group(2))
         if why.startswith("outputs-validate") and "does not validate" in why:
             # every failing output must be explained by a known class:
             #  (a) a Decimal beyond the JS-safe range / non-finite is published as a string: with those replaced by 0 it validates;
@@ -1610,7 +1942,7 @@ class C13(Check):
             n = len(outs)
             weak = _has_weak_oneof(case["ty"])
             kinds, unexplained = set(), False
-            for key in ("schema_out", "defs_out"):
+            for key in ("schema_out", "defs_out", "final_out"):
                 lib, rel = js.get(key), js.get(key + "_anyof")
                 if not lib:
                     continue
@@ -1642,6 +1974,9 @@ class C13(Check):
     def key(self, case, io):
         if case.get("kind") == "pairs":
             return json.dumps(case, sort_keys=True)
+        if case.get("kind") == "session":
+            ok = isinstance(io, dict) and any(isinstance(s, dict) and any("enc" in o for o in s.get("outs", [])) for s in io.get("steps", []))
+            return json.dumps(case, sort_keys=True) if ok else None
         if not isinstance(io, dict) or not any("enc" in o for o in io.get("outs", [])):
             return None
         t = case["ty"]
@@ -1652,6 +1987,9 @@ class C13(Check):
     def distribution(self, case, io):
         if case.get("kind") == "pairs":
             return "pairs"
+        if case.get("kind") == "session":
+            names = [st["ty"].get("name") for st in case["steps"]]
+            return f"session/steps={len(names)}/same-name={len(names) - len(set(names))}"
         if isinstance(io, dict) and "declaration_rejected" in io:
             return "declaration-rejected/" + io["declaration_rejected"]
         t = case["ty"]
@@ -1664,6 +2002,10 @@ class C13(Check):
         out = []
         if case.get("kind") == "pairs":
             return out
+        if case.get("kind") == "session":
+            for i in range(len(case["steps"])):
+                out.append({"kind": "session", "steps": case["steps"][:i] + case["steps"][i + 1:]})
+            return [c for c in out if c["steps"]]
         for gm in MODES:
             if case["ty"]["k"] == "data":
                 out.append(dict(case, genMode=gm))
